@@ -1233,6 +1233,112 @@ def rw_sidechan(fi, args, spec=None):
     return edits
 
 
+def rw_forstep(fi, args, spec=None):
+    """R-FORSTEP K: `for P in (A..B).step_by(S) {` -> `let mut __iK = A; let __eK = B; while __iK < __eK { let P = __iK;
+    BODY __iK += S; }` (the loop `StepBy<Range>` is; the body must not `continue`, checked). Verus has no specification
+    for `step_by`."""
+    toks = fi.toks
+    src = fi.sf.src
+    edits = []
+    for a in args:
+        lp = fi.loops[int(a)]
+        if lp['kind'] != 'for':
+            raise LostAnchor(f'fn {fi.item.name}: R-FORSTEP on a non-for loop')
+        i = lp['kw']
+        j = i + 1
+        while not is_id(toks[j], 'in'):
+            j += 1
+        pat = src[toks[i + 1].start:toks[j].start].strip()
+        m = re.match(r'^\((.+?)\.\.(.+?)\)\.step_by\((.+?)\)$', norm(toks, j + 1, lp['open']).replace(' ', ''))
+        if not m:
+            raise LostAnchor(f'fn {fi.item.name}: R-FORSTEP: expected `(A..B).step_by(S)`')
+        lo, hi, st = m.group(1), m.group(2), m.group(3)
+        for q in range(lp['open'], lp['close']):
+            if is_id(toks[q], 'continue'):
+                raise LostAnchor(f'fn {fi.item.name}: R-FORSTEP: loop body contains `continue`')
+        n = a
+        edits.append((toks[lp['start']].start, toks[lp['start']].start, f'let mut __i{n}: usize = {lo}; let __e{n}: usize = {hi};\n', 'R-FORSTEP'))
+        edits.append((toks[i].start, toks[lp['open']].start, f'while __i{n} < __e{n} ', 'R-FORSTEP'))
+        edits.append((toks[lp['open']].end, toks[lp['open']].end, f' let {pat} = __i{n};', 'R-FORSTEP'))
+        edits.append((toks[lp['close']].start, toks[lp['close']].start, f' __i{n} += {st}; ', 'R-FORSTEP'))
+    return edits
+
+
+def rw_iterpairmut(fi, args, spec=None):
+    """R-ITERPAIRMUT K: `for (A, B) in X.non_stale_mut() {` (an iterator of `(RowId, &mut [Value])`) -> index loop over the
+    stub accessor `X.vc_non_stale_mut()` (`&mut Vec<(RowId, Vec<Value>)>`):
+    `while __jK < __nK { let A = __vK[__jK].0; let B = &mut __vK[__jK].1; BODY __jK += 1; }` (no `continue` in BODY, checked)."""
+    toks = fi.toks
+    src = fi.sf.src
+    edits = []
+    for a in args:
+        lp = fi.loops[int(a)]
+        if lp['kind'] != 'for':
+            raise LostAnchor(f'fn {fi.item.name}: R-ITERPAIRMUT on a non-for loop')
+        i = lp['kw']
+        j = i + 1
+        while not is_id(toks[j], 'in'):
+            if toks[j].kind == 'punct' and toks[j].text == '(':
+                j = match_close(toks, j)
+            j += 1
+        pat = src[toks[i + 1].start:toks[j].start].strip()
+        m = re.match(r'^\(\s*([A-Za-z_][A-Za-z0-9_]*)\s*,\s*([A-Za-z_][A-Za-z0-9_]*)\s*\)$', pat)
+        chain = norm(toks, j + 1, lp['open']).replace(' ', '')
+        if not m or not chain.endswith('.non_stale_mut()'):
+            raise LostAnchor(f'fn {fi.item.name}: R-ITERPAIRMUT: expected `for (a, b) in X.non_stale_mut()`')
+        recv = chain[:-len('.non_stale_mut()')]
+        for q in range(lp['open'], lp['close']):
+            if is_id(toks[q], 'continue'):
+                raise LostAnchor(f'fn {fi.item.name}: R-ITERPAIRMUT: loop body contains `continue`')
+        n = a
+        edits.append((toks[lp['start']].start, toks[lp['start']].start, f'let __v{n} = {recv}.vc_non_stale_mut(); let mut __j{n}: usize = 0; let __n{n}: usize = __v{n}.len();\n', 'R-ITERPAIRMUT'))
+        edits.append((toks[i].start, toks[lp['open']].start, f'while __j{n} < __n{n} ', 'R-ITERPAIRMUT'))
+        edits.append((toks[lp['open']].end, toks[lp['open']].end, f' let {m.group(1)} = __v{n}[__j{n}].0; let {m.group(2)} = &mut __v{n}[__j{n}].1;', 'R-ITERPAIRMUT'))
+        edits.append((toks[lp['close']].start, toks[lp['close']].start, f' __j{n} += 1; ', 'R-ITERPAIRMUT'))
+    return edits
+
+
+def rw_macro(fi, args, spec=None):
+    """R-MACRO NAME: every statement `NAME!(a1, .., an);` in the function is replaced by the body of the
+    `macro_rules! NAME { ($p1: expr, .., $pn: expr) => {{ BODY }}; }` definition found in the same source file, with
+    `$pi` replaced textually by `ai` (what macro expansion does for `expr` fragments; the macro must have one arm)."""
+    name = args[0]
+    toks = fi.toks
+    sf = fi.sf
+    full = sf.full_src if hasattr(sf, 'full_src') else None
+    src_all = open(os.path.join(REPO, sf.rel)).read()
+    m = re.search(r'macro_rules!\s*' + re.escape(name) + r'\s*\{\s*\(([^)]*)\)\s*=>\s*\{\{(.*?)\}\};?\s*\}', src_all, re.S)
+    if not m:
+        raise LostAnchor(f'fn {fi.item.name}: R-MACRO: no single-arm `macro_rules! {name}` with a `{{{{ .. }}}}` body in {sf.rel}')
+    params = [x.strip() for x in m.group(1).split(',') if x.strip()]
+    pnames = []
+    for prm in params:
+        mm = re.match(r'^\$([A-Za-z_][A-Za-z0-9_]*)\s*:\s*expr$', prm)
+        if not mm:
+            raise LostAnchor(f'fn {fi.item.name}: R-MACRO: parameter `{prm}` is not an `expr` fragment')
+        pnames.append(mm.group(1))
+    body = m.group(2)
+    edits = []
+    i = fi.item.body_open + 1
+    while i + 2 < fi.item.body_close:
+        if is_id(toks[i], name) and is_p(toks[i + 1], '!') and is_p(toks[i + 2], '('):
+            k = match_close(toks, i + 2)
+            argl = [fi.sf.src[toks[a].start:toks[b - 1].end].strip() for (a, b) in _split_args(toks, i + 3, k)]
+            if len(argl) != len(pnames):
+                raise LostAnchor(f'fn {fi.item.name}: R-MACRO: `{name}!` called with {len(argl)} arguments')
+            text = body
+            for pn, av in zip(pnames, argl):
+                text = re.sub(r'\$' + pn + r'\b', lambda _m, av=av: av, text)
+            end = toks[k + 1].end if is_p(toks[k + 1], ';') else toks[k].end
+            edits.append((toks[i].start, end, '{' + text + '}', 'R-MACRO'))
+            i = k + 1
+            continue
+        i += 1
+    if not edits:
+        raise LostAnchor(f'fn {fi.item.name}: R-MACRO: `{name}!` is not used')
+    return edits
+
+
 def rw_dyncall(fi, args, spec=None):
     """R-DYNCALL: `(RECV)(ARGS)` (call of a `dyn Fn` object stored in a field) -> `RECV.vc_call(ARGS)`; Verus does not
     support `dyn Fn` types, the stub type of the field offers `vc_call` with the closure's assumed contract."""
@@ -1257,6 +1363,9 @@ def rw_dyncall(fi, args, spec=None):
 
 REWRITES = {
     'R-DYNCALL': rw_dyncall,
+    'R-FORSTEP': rw_forstep,
+    'R-ITERPAIRMUT': rw_iterpairmut,
+    'R-MACRO': rw_macro,
     'R-SIDECHAN': rw_sidechan,
     'R-UPDATE': rw_update,
     'R-ITERALL': rw_iterall,
@@ -1360,7 +1469,7 @@ def emit_fn(gen, sf, item, spec, canary=False, qual='', in_trait=False):
             if canary:
                 text = canary_sig(text)
         e = (off, off, '\n' + text + '\n', ('unit', org[0], org[1] - 1))
-        if anchor == 'attr':
+        if anchor == 'attr' or anchor.startswith('before-loop'):
             edits.insert(0, e)
         else:
             edits.append(e)
@@ -1685,6 +1794,7 @@ def _generate(unit_path, canaries=True, extra=()):
             # //@ lift <file> <fn name | Impl::fn> closure K as NAME ; then `//@ sigtext <text>` gives the header
             sf = SrcFile.get(w[1])
             target = w[2]
+            lift_kind = w[3]
             k = int(w[4])
             name = w[6]
             header_txt = None
@@ -1706,15 +1816,52 @@ def _generate(unit_path, canaries=True, extra=()):
             if len(cands) != 1:
                 raise LostAnchor(f'{sf.rel}: expected exactly one fn {target} for lift, found {len(cands)}')
             fi0 = FnInfo(sf, cands[0])
-            if k >= len(fi0.closures):
-                raise LostAnchor(f'{sf.rel}: fn {target} has no closure {k}')
-            cl = fi0.closures[k]
-            b0 = cl['bar2'] + 1
-            if not is_p(sf.toks[b0], '{'):
-                raise LostAnchor(f'{sf.rel}: closure {k} of {target} has no block body')
+            if lift_kind == 'else':
+                # the final `else { .. }` block of the K-th `if` at the top level of the function body, as a function
+                it0 = cands[0]
+                q = it0.body_open + 1
+                n_if = -1
+                b0 = None
+                while q < it0.body_close:
+                    t = sf.toks[q]
+                    if t.kind == 'punct' and t.text in ('(', '[', '{'):
+                        q = match_close(sf.toks, q)
+                    elif is_id(t, 'if') and not is_id(sf.toks[q - 1], 'else'):
+                        n_if += 1
+                        # walk the if / else-if chain
+                        r_ = q
+                        last_else = None
+                        while True:
+                            while not is_p(sf.toks[r_], '{'):
+                                if sf.toks[r_].kind == 'punct' and sf.toks[r_].text in ('(', '['):
+                                    r_ = match_close(sf.toks, r_)
+                                r_ += 1
+                            r_ = match_close(sf.toks, r_)
+                            if is_id(sf.toks[r_ + 1], 'else'):
+                                if is_id(sf.toks[r_ + 2], 'if'):
+                                    r_ = r_ + 2
+                                    continue
+                                last_else = r_ + 2
+                                r_ = match_close(sf.toks, last_else)
+                            break
+                        if n_if == k:
+                            b0 = last_else
+                            break
+                        q = r_
+                    q += 1
+                if b0 is None or not is_p(sf.toks[b0], '{'):
+                    raise LostAnchor(f'{sf.rel}: fn {target} has no top-level if #{k} with a final else block')
+                params_txt = 'else-block'
+            else:
+                if k >= len(fi0.closures):
+                    raise LostAnchor(f'{sf.rel}: fn {target} has no closure {k}')
+                cl = fi0.closures[k]
+                b0 = cl['bar2'] + 1
+                if not is_p(sf.toks[b0], '{'):
+                    raise LostAnchor(f'{sf.rel}: closure {k} of {target} has no block body')
+                params_txt = re.sub(r'\s+', ' ', sf.src[sf.toks[cl['bar1']].start:sf.toks[cl['bar2']].end])
             b1 = match_close(sf.toks, b0)
             body = sf.src[sf.toks[b0].start:sf.toks[b1].end]
-            params_txt = re.sub(r'\s+', ' ', sf.src[sf.toks[cl['bar1']].start:sf.toks[cl['bar2']].end])
             text = header_txt + ' ' + body
             lb = line_of(sf.src, sf.toks[b0].start) - 1
             sf2 = SrcFile(sf.rel, text=text, line_base=lb)
@@ -1724,7 +1871,7 @@ def _generate(unit_path, canaries=True, extra=()):
             except (LexError, IndexError, AssertionError) as e:
                 raise LostAnchor(f'lift: cannot parse lifted closure: {e}')
             item = sf2.items[0]
-            gen.rewrites.append((f'R-LIFT closure {k} of {target} (params `{params_txt}`) as {name}', sf.rel, lb + 1))
+            gen.rewrites.append((f'R-LIFT {lift_kind} {k} of {target} (params `{params_txt}`) as {name}', sf.rel, lb + 1))
             emit_fn(gen, sf2, item, spec, canary=False, qual='closure@' + target + '::')
             if canaries and spec.canary:
                 emit_fn(gen, sf2, item, spec, canary=True, qual='closure@' + target + '::')
